@@ -61,9 +61,40 @@ def run(pid, cfg, tier, seed, arkh, tmp):
         return determinism(pid, cfg, tier, seed, arkh, tmp)
     if sp == "builds":
         return builds(pid, cfg, tier, seed, arkh, tmp)
-    if sp in ("race", "codec", "registry", "typed"):
+    if sp == "typed":
+        out = gotests(pid, sp, tier, seed)
+        wiring(pid, out, tmp)
+        return out
+    if sp in ("race", "codec", "registry"):
         return gotests(pid, sp, tier, seed)
     return None
+
+
+def wiring(pid, out, tmp):
+    """C14: translate the generated generic API of /repo's current source into Coq data and compile
+    the consistency theorem against it. The typed twin tests (already run) are the search for a
+    failing input; if they passed, an inconsistent wiring is reported with no-failing-input-found."""
+    wd = os.path.join(tmp, "wiringcoq")
+    os.makedirs(wd, exist_ok=True)
+    rc, o = L.sh("cd %s && go build -o %s ./cmd/wiring" % (L.HARNESS, os.path.join(L.BUILD, "wiring")), timeout=600)
+    if rc != 0:
+        p = L.write_replay(pid, "translator", dict(detail="wiring translator does not build", output=o[-1500:]))
+        out["violations"].append((p, "no-failing-input-found")); return
+    rc, o = L.sh([os.path.join(L.BUILD, "wiring"), "-dir", "/repo/ecs", "-out", os.path.join(wd, "WiringData.v")], timeout=600)
+    m = re.search(r"wiring: (\d+) generic functions, (\d+) units, (\d+) inconsistent", o)
+    findings = [l for l in o.splitlines() if l.startswith("WIRING ")]
+    shutil.copy(os.path.join(L.COQ, "Generated", "C14Generated.v"), wd)
+    rc2, o2 = L.sh("coqc -Q %s Ark -Q . ArkGen WiringData.v && coqc -Q %s Ark -Q . ArkGen C14Generated.v" % (L.COQ, L.COQ), cwd=wd, timeout=1200)
+    out["coverage"]["wiring_translation"] = dict(generic_functions=int(m.group(1)) if m else 0, units=int(m.group(2)) if m else 0,
+                                                 inconsistent=findings[:10], theorem="extracted_wiring_consistent",
+                                                 coq="Closed under the global context" in o2 and rc2 == 0)
+    if rc2 != 0 or rc != 0 or not m:
+        already = any(True for _ in out["violations"])
+        p = L.write_replay(pid, "theorem", dict(
+            detail="the wiring extracted from /repo/ecs/*_gen.go is not consistent: theorem extracted_wiring_consistent (coq/Generated/C14Generated.v) does not check",
+            theorem="extracted_wiring_consistent", units=findings[:20], coq_output=o2[-1500:], translator_output=o[-1500:],
+            how_to_run="build/wiring -dir /repo/ecs (prints the inconsistent units)"))
+        out["violations"].append((p, "" if already else "no-failing-input-found"))
 
 
 def determinism(pid, cfg, tier, seed, arkh, tmp):
@@ -95,7 +126,45 @@ def determinism(pid, cfg, tier, seed, arkh, tmp):
                     out["violations"].append((p, "")); return out
             compared += n
     out["coverage"]["determinism_runs"] = dict(processes=reps, scripts_per_process=n, scripts_compared=compared)
+    # Source side: every construct through which package ecs could observe something else than the
+    # operation history must be covered by a theorem (bin/srcscan_allow.json). The twin-process runs
+    # above are the search for a failing input; an uncovered construct that they do not expose is
+    # still a violation (the property is no longer shown to hold).
+    scan = srcscan()
+    out["coverage"]["source_scan"] = dict(configurations=scan["configs"], constructs=scan["found"], uncovered=scan["uncovered"])
+    if scan["error"]:
+        p = L.write_replay(pid, "srcscan", dict(detail="source scan failed: " + scan["error"]))
+        out["violations"].append((p, "no-failing-input-found"))
+    elif scan["uncovered"]:
+        p = L.write_replay(pid, "theorem", dict(
+            detail="package ecs contains a source of non-determinism that no theorem of Properties/C12.v covers",
+            constructs=scan["uncovered"], theorem="Properties/C12.v: C12_free_table_map_order / C12_shrink_budget_invisible do not apply to these constructs",
+            searched="%d scripts in %d separate processes: traces byte-identical" % (compared, reps)))
+        out["violations"].append((p, "no-failing-input-found"))
     return out
+
+
+def srcscan():
+    """Runs harness/cmd/srcscan on /repo/ecs for the four build configurations."""
+    res = dict(configs=[], found=[], uncovered=[], error="")
+    rc, o = L.sh("cd %s && go build -o %s ./cmd/srcscan" % (os.path.join(L.ROOT, "harness"), os.path.join(L.BUILD, "srcscan")), timeout=600)
+    if rc != 0:
+        res["error"] = o[-1500:]; return res
+    allow = json.load(open(os.path.join(L.ROOT, "bin", "srcscan_allow.json")))["entries"]
+    allowed = set((a["kind"], a["file"], a["func"], a["detail"]) for a in allow)
+    seen = set()
+    for tags in ("", "ark_tiny", "ark_debug", "ark_tiny,ark_debug"):
+        rc, o = L.sh([os.path.join(L.BUILD, "srcscan"), "-dir", "/repo/ecs", "-tags", tags], cwd="/repo", timeout=600)
+        if rc != 0:
+            res["error"] = "tags=%s: %s" % (tags, o[-1500:]); return res
+        res["configs"].append(tags or "default")
+        for line in o.splitlines():
+            parts = line.split("\t")
+            if len(parts) == 4:
+                seen.add(tuple(parts))
+    res["found"] = ["%s %s %s %s" % t for t in sorted(seen)]
+    res["uncovered"] = ["%s in %s (%s): %s" % t for t in sorted(seen) if t not in allowed]
+    return res
 
 
 def builds(pid, cfg, tier, seed, arkh, tmp):
@@ -160,7 +229,50 @@ def builds(pid, cfg, tier, seed, arkh, tmp):
                     p = L.write_replay(pid, "unshown", dict(detail="model(flags %s) and implementation differ at step %d" % (tags, k), script=rewrite_cfg(scripts[i], bits, dbg)[:k + 3]))
                     out["violations"].append((p, "no-failing-input-found")); out["broken"] = True; return out
     out["coverage"]["build_variants"] = dict(variants=[v[0] for v in variants] + ["(none)"], scripts_per_variant=total // max(1, len(variants)))
+    probes(pid, out, ["", "ark_debug", "ark_tiny", "ark_tiny,ark_debug"])
     return out
+
+
+def probes(pid, out, tag_sets):
+    """Runs the finding probes of harness/findings under each build configuration and compares, call
+    by call, whether the call panicked. A divergence that matches an entry of known_findings.json
+    ("known") is reported as KNOWN-FINDING (the check prints the line, exit status unaffected); any
+    other divergence is a violation with the call as the replay."""
+    res = {}
+    for tags in tag_sets:
+        t = "verif" + ("," + tags if tags else "")
+        rc, o = L.sh(["go", "test", "-count=1", "-tags", t, "-run", "TestFinding_" + pid, "-v", "./findings"], cwd=L.HARNESS, timeout=1200)
+        if rc != 0:
+            p = L.write_replay(pid, "gotest", dict(detail="finding probes failed under tags '%s'" % tags, output=o[-2000:],
+                                                    how_to_run="cd /verif/harness && GOFLAGS=-mod=mod GOPROXY=off go test -count=1 -tags %s -run TestFinding_%s -v ./findings" % (t, pid)))
+            out["violations"].append((p, "")); return
+        res[tags] = dict(re.findall(r"FINDING-PROBE %s (.*): panicked=(true|false)" % pid, o))
+    base = res[tag_sets[0]]
+    known = [k for k in L.known_findings().get("known", []) if k.get("property") == pid]
+    observed, unexpected = {}, []
+    for call, pv in base.items():
+        outcomes = dict((tags or "default", res[tags].get(call)) for tags in tag_sets)
+        if len(set(outcomes.values())) > 1:
+            hit = None
+            for k in known:
+                m = k.get("match", {})
+                if re.search(m.get("calls_regex", "$^"), call):
+                    ok = all((v == ("true" if m.get("debug_panics") else "false")) if "ark_debug" in t_ else (v == ("true" if m.get("default_panics") else "false"))
+                             for t_, v in outcomes.items())
+                    if ok:
+                        hit = k
+            if hit:
+                observed.setdefault(hit["id"], []).append(call)
+            else:
+                unexpected.append((call, outcomes))
+    out["coverage"]["finding_probes"] = dict(calls=len(base), configurations=[t or "default" for t in tag_sets], known_divergences=observed)
+    for k in known:
+        if k["id"] in observed:
+            out.setdefault("known_lines", []).append("KNOWN-FINDING: property=%s %s [%s] observed on: %s" % (pid, k["id"], k["what"][:200], "; ".join(observed[k["id"]])))
+    for call, outcomes in unexpected:
+        p = L.write_replay(pid, "call", dict(detail="the build configurations disagree on whether this call panics", call=call, panicked=outcomes,
+                                              how_to_run="cd /verif/harness && GOFLAGS=-mod=mod GOPROXY=off go test -count=1 -tags verif[,ark_debug|,ark_tiny] -run TestFinding_%s -v ./findings" % pid))
+        out["violations"].append((p, ""))
 
 
 def gotests(pid, sp, tier, seed):
